@@ -200,6 +200,15 @@ def watcher_filter_case(pr):
         except OSError:
             pass
     time.sleep(0.5)
+    # ... and one of them (src/caf\xe9.txt) matches the declared filter: it is an input like any other
+    pr.wait_for(lambda: pr.count("e t") >= pr.count("s t"), WAIT)
+    time.sleep(0.3)
+    nn = pr.output_of(p).count(" t - Build")
+    pr.writeb(b"src/caf\xe9.txt", b"latin1 name")
+    if not pr.wait_for(lambda: pr.output_of(p).count(" t - Build") > nn, WAIT):
+        return {"property": "C16", "expected": "creating src/caf\\xe9.txt (a name that is not valid UTF-8, matching the declared extension txt) triggers the target", "observed": "no evaluation in %ss" % WAIT, "output": pr.output_of(p)[-400:]}
+    pr.wait_for(lambda: pr.count("e t") >= pr.count("s t"), WAIT)
+    time.sleep(0.5)
     n1 = pr.count("s t")
     pr.edit("src/in.txt", "v1")
     if not pr.wait_for(lambda: (pr.read("out.txt") or "").strip() == "v1", WAIT):
@@ -334,6 +343,67 @@ def watch_edit_long_build_then_sigterm_case(pr):
     left = [q for q in _pids(pr, "t") if _alive(q)]
     if left:
         return {"property": "C10", "expected": "every build shell spawned (%d in all) has been killed and reaped when zinoma exits" % len(_pids(pr, "t")), "observed": "shell pid(s) %s still alive" % left, "output": pr.output_of(p)[-300:]}
+    return None
+
+
+def watch_rename_over_input_case(pr):
+    """the change arrives as a rename over an existing input (safe-write editors, rsync, git checkout)"""
+    pr.write("src/in.txt", "v0")
+    pr.write("zinoma.yml", yml({"t": _copy_target()}))
+    p = _start_watch(pr, "t")
+    if not _wait_builds(pr, "t", 1):
+        return None
+    time.sleep(0.5)
+    pr.write("staging/new.txt", "v1-renamed", record=False)
+    os.rename(pr.path("staging/new.txt"), pr.path("src/in.txt"))
+    pr.commands.append("mv staging/new.txt src/in.txt")
+    if not pr.wait_for(lambda: (pr.read("out.txt") or "").strip() == "v1-renamed", WAIT):
+        return {"property": ["C06", "C16"], "expected": "src/in.txt was replaced by a rename: the target re-runs, out.txt = v1-renamed", "observed": "out.txt = %r" % (pr.read("out.txt") or "").strip(), "output": pr.output_of(p)[-400:]}
+    return None
+
+
+def watch_repeated_failure_reported_case(pr):
+    """watch mode: a dependency-only target fails, is repaired, fails again with the same error: reported both times"""
+    pr.write("lsrc/in.txt", "bad")
+    lib = {"input": [{"paths": ["lsrc"]}], "build": 'echo "s lib" >> "$ZLOG"\nif [ "$(cat lsrc/in.txt)" = bad ]; then exit 1; fi\necho "e lib" >> "$ZLOG"'}
+    pr.write("zinoma.yml", yml({"lib": lib, "app": {"dependencies": ["lib"], "build": logging_build("app")}}))
+    p = pr.spawn("--watch", "app")
+    def reports():
+        return sum(1 for l in pr.output_of(p).split("\n") if "lib" in l and ("WARN" in l or "ERROR" in l))
+    if not pr.wait_for(lambda: reports() >= 1, WAIT):
+        return {"property": "C07", "expected": "in watch mode the failure of lib is reported", "observed": pr.output_of(p)[-300:]}
+    time.sleep(0.5)
+    pr.edit("lsrc/in.txt", "good")
+    if not pr.wait_for(lambda: "e app" in pr.log(), WAIT):
+        return None
+    time.sleep(0.5)
+    n = reports()
+    pr.edit("lsrc/in.txt", "bad")
+    pr.wait_for(lambda: pr.count("s lib") >= 3, WAIT)
+    if not pr.wait_for(lambda: reports() > n, 5):
+        return {"property": "C07", "expected": "lib fails again (same error as the first time): the failure is reported again", "observed": "no new report; output: %s" % pr.output_of(p)[-500:]}
+    return None
+
+
+def signal_with_several_actors_case(pr):
+    """a termination signal while one build runs and other actors exist (idle dependents, a finished sibling)"""
+    ts = {"a": {"build": logging_build("a")}, "b": {"dependencies": ["a"], "build": 'echo "pid b $$" >> "$ZLOG"\nsleep 60'}, "c": {"dependencies": ["b"], "build": logging_build("c")}, "d": {"dependencies": ["c", "a"], "build": logging_build("d")}, "g": {"dependencies": ["d", "a"]}}
+    pr.write("zinoma.yml", yml(ts))
+    for (sig, rep) in ((signal.SIGINT, 0), (signal.SIGTERM, 1), (signal.SIGINT, 2)):
+        pr.clear_log()
+        p = pr.spawn("g")
+        if not pr.wait_for(lambda: _pids(pr, "b"), WAIT):
+            pr.kill(p)
+            return None
+        time.sleep(0.3)
+        os.kill(p.pid, sig)
+        if not pr.wait_exit(p, 10):
+            pr.kill(p)
+            return {"property": "C10", "expected": "signal %d while b builds and four other actors exist: zinoma exits promptly (round %d)" % (sig, rep), "observed": "still running after 10 s", "output": pr.output_of(p)[-300:]}
+        time.sleep(0.2)
+        left = [q for q in _pids(pr, "b") if _alive(q)]
+        if left:
+            return {"property": "C10", "expected": "b's shell has been killed and reaped", "observed": "pid(s) %s alive" % left}
     return None
 
 
@@ -660,9 +730,29 @@ def watch_unfiltered_resource_case(pr):
         n = pr.count("s t")
         pr.edit(f, txt)
         if not pr.wait_for(lambda: pr.count("s t") > n, WAIT):
-            return {"property": ["C06", "C16"], "expected": "a change to %s (a declared input; conf has no extension filter) re-runs the target" % f, "observed": "no new start in %ss" % WAIT, "output": pr.output_of(p)[-400:]}
+            return {"property": ["C06", "C16", "C15"], "expected": "a change to %s (a declared input; conf has no extension filter) re-runs the target" % f, "observed": "no new start in %ss" % WAIT, "output": pr.output_of(p)[-400:]}
         pr.wait_for(lambda: pr.count("e t") >= pr.count("s t"), WAIT)
         time.sleep(0.5)
+    return None
+
+
+def aggregate_with_slow_service_case(pr):
+    """dev -> [assets (build), api (service)], api -> compile (slow build): `zinoma dev` starts api and stays alive"""
+    ts = {"assets": {"build": logging_build("assets")}, "compile": {"build": logging_build("compile", sleep=1.5)}, "api": {"dependencies": ["compile"], "service": SVC}, "dev": {"dependencies": ["assets", "api"]}, "outer": {"dependencies": ["dev"]}}
+    pr.write("zinoma.yml", yml(ts))
+    for root in ("dev", "outer"):
+        pr.clear_log()
+        p = pr.spawn(root)
+        started = pr.wait_for(lambda: _pids(pr, "svc"), WAIT)
+        time.sleep(1.5)
+        alive = p.poll() is None
+        if alive:
+            os.kill(p.pid, signal.SIGTERM)
+            pr.wait_exit(p, 8)
+        pr.kill(p)
+        if not started or not alive:
+            return {"property": ["C11", "C20"], "expected": "`zinoma %s`: the service api (behind the aggregate, after its slow prerequisite) is started and keeps zinoma running" % root, "observed": "service started: %s; zinoma %s" % (bool(started), "still running" if alive else "exited with %s" % p.returncode), "output": pr.output_of(p)[-300:]}
+        pr.remove(".zinoma")
     return None
 
 
@@ -685,6 +775,9 @@ def cases(seed, tier="quick"):
         C("failure-with-running-sibling", failure_with_running_sibling_case, "failed target while a sibling builds"),
         C("wide-failure", wide_failure_case, "failure with thousands of messages in flight"),
         C("many-roots", many_roots_case, "100 targets on the command line"),
+        C("watch-rename-over-input", watch_rename_over_input_case, "an input replaced by rename"),
+        C("watch-repeated-failure-reported", watch_repeated_failure_reported_case, "the same failure twice is reported twice"),
+        C("signal-with-several-actors", signal_with_several_actors_case, "signal while one build runs among several actors"),
         C("watch-edit-long-build-then-sigterm", watch_edit_long_build_then_sigterm_case, "edits during a long build, then SIGTERM"),
         C("sigterm-during-wide-run", sigterm_during_wide_run_case, "SIGTERM with many messages in flight"),
         C("service-requested", service_requested_case(False), "requested service keeps zinoma alive, stopped at SIGTERM"),
@@ -692,6 +785,7 @@ def cases(seed, tier="quick"):
         C("service-dependency", service_dependency_case, "service only depended on: up during the build, stopped at exit"),
         C("service-shared-deep", service_shared_deep_case, "service shared by a shallow and a deep dependent"),
         C("service-restart", service_restart_case, "restart stops the old instance first"),
+        C("aggregate-with-slow-service", aggregate_with_slow_service_case, "a service with a slow prerequisite behind an aggregate with builds"),
         C("service-up-on-every-rebuild", service_up_on_every_rebuild_case, "the service is up on every re-build of its dependent"),
         C("service-beside-nested-aggregate", service_beside_nested_aggregate_case, "keep-alive with a service next to a deep aggregate"),
         C("watch-dot-path", watch_dot_path_case, "own state writes do not trigger (paths: [.])"),
